@@ -133,6 +133,10 @@ _FUNCS = {
     'kf': lambda k: (lambda i: float(i % k)),
     'kmix': lambda k: (lambda i: float(i % k) if i % 2 else i % k),
     'kdig': lambda k: (lambda x: digest(x) % k),
+    # different keys whose hashes collide: hash(-1) == hash(-2); ints congruent mod 2**61-1 share a hash
+    'kneg': lambda k: (lambda i: -1 - (i % k)),
+    'kmers': lambda k: (lambda i: (i % k) * (2 ** 61 - 1)),
+    'ktneg': lambda k: (lambda i: ('s', -1 - (i % k))),
     'divt': lambda k: (lambda i: (i // k,)),
     'divs': lambda k: (lambda i: str(i // k)),
     'divbig': lambda k: (lambda i: 10 ** 12 + i // k),
@@ -290,7 +294,7 @@ def out_type(node, t):
 
 
 INT_FUNCS = {'add', 'mul', 'mod', 'div', 'neg', 'pair', 'pairmod', 'rep', 'upto', 'opt', 'half', 'tofloat', 'nt', 'even', 'odd',
-             'modeq', 'modne', 'modtruthy', 'kt', 'ks', 'kbig', 'kf', 'kmix', 'divt', 'divs', 'divbig', 'divpar'}
+             'modeq', 'modne', 'modtruthy', 'kt', 'ks', 'kbig', 'kf', 'kmix', 'kneg', 'kmers', 'ktneg', 'divt', 'divs', 'divbig', 'divpar'}
 NUM_FUNCS = {'gt', 'lt', 'trunc', 'scale10'}
 ANY_FUNCS = {'id', 'digest', 'dgt', 'true', 'false', 'kdig', 'digpar'}
 TYPED_FUNCS = {'t0': 't', 't1': 't', 'tsum': 't', 'len': 'l', 'lsum': 'l', 'isnone': 'o', 'ntsum': 'n'}
